@@ -4,6 +4,7 @@ cd "$(dirname "$0")" || exit 2
 VERIF_DIR="$(pwd)"; export VERIF_DIR
 CARGO_NET_OFFLINE=true; export CARGO_NET_OFFLINE
 mkdir -p target replays evidence
+rm -f target/repo.hash
 (cd sim && cargo build --release --offline) || { echo "HARNESS-ERROR: build failed" >&2; exit 2; }
 # known-answer tests of the reference codec (CRC-32, HMAC, RFC 5769 short- and long-term vectors, exposure rule)
 (cd sim && cargo test --release --offline -q) || { echo "HARNESS-ERROR: reference codec self-tests failed" >&2; exit 2; }
